@@ -9,7 +9,7 @@ from __future__ import annotations
 import numpy as np
 import z3
 
-from .core import SymBool, Unsupported, ctx, s_not, _EMPTY, _str_to_frac
+from .core import SymBool, Unsupported, ReplayIncomplete, ctx, s_not, _EMPTY, _str_to_frac
 
 
 class SymInt:
@@ -126,6 +126,8 @@ class SymInt:
 
 def sym_int_var(c, name, lo=None, hi=None):
     if c.mode == "conc":
+        if name not in c.values:
+            raise ReplayIncomplete(name)
         return int(_str_to_frac(str(c.values[name])))
     v = c._declare(name, "int")
     x = SymInt(v, frozenset([name]))
@@ -184,7 +186,16 @@ class SymProgression:
         return NotImplemented
 
     def at(self, j):
-        return self.first + j * self.step if self.step != 0 else self.first + 0 * j
+        return self.first + j * self.step if self.step != 0 else self.first
+
+    def __neg__(self):
+        return self._affine(-1, 0)
+
+    def copy(self):
+        return SymProgression(self.first, self.step, self.count)
+
+    def astype(self, *a, **k):
+        return self
 
 
 class SymArange:
@@ -239,6 +250,32 @@ class NumpyShim:
 
     def __getattr__(self, name):
         return getattr(np, name)
+
+    @staticmethod
+    def zeros_like(a, *x, **k):
+        if isinstance(a, SymProgression):
+            return SymProgression(0, 0, a.count)
+        return np.zeros_like(a, *x, **k)
+
+    @staticmethod
+    def ones_like(a, *x, **k):
+        if isinstance(a, SymProgression):
+            return SymProgression(1, 0, a.count)
+        return np.ones_like(a, *x, **k)
+
+    @staticmethod
+    def full_like(a, fill, *x, **k):
+        if isinstance(a, SymProgression):
+            return SymProgression(fill, 0, a.count)
+        return np.full_like(a, fill, *x, **k)
+
+    @staticmethod
+    def asarray(a, *x, **k):
+        if isinstance(a, SymProgression):
+            return a
+        return np.asarray(a, *x, **k)
+
+    array = asarray
 
     @staticmethod
     def arange(n, *a, **k):
